@@ -20,6 +20,7 @@ oracle: context data deep-equals its snapshot after every render (methods along 
 """
 import collections
 import collections.abc
+import re
 
 from markupsafe import Markup
 import types
@@ -154,7 +155,7 @@ Theorem domain_nonvacuous : forallb (fun T => existsb (mutates T) (gen_public T)
   all_btypes = true.
 Proof. vm_compute. reflexivity. Qed.
 """
-        ok, out = ctx.coq_obligation("SbxGenC19", v, n_obligations=3)
+        ok, out = sbx_src_tie.checked_obligation(ctx, "SbxGenC19", v, 3)
         if ok:
             ctx.trusted.append("immutable_blocks_mutators (regenerated): " + " ".join(out.split()))
     try:
@@ -178,7 +179,7 @@ Theorem filters_do_not_mutate_args : forall f sites, In (f, sites) gen_filter_wr
 Proof. apply filters_clean_sound. vm_compute. reflexivity. Qed.
 Print Assumptions filters_do_not_mutate_args.
 """
-    ctx.coq_obligation("SbxGenC19Filters", v, n_obligations=1)
+    sbx_src_tie.checked_obligation(ctx, "SbxGenC19Filters", v, 1)
     ctx.extra["filters_scanned"] = len(ff)
     flagged = [(q, s) for q, s in ff if s]
     if flagged:
@@ -244,6 +245,9 @@ PATHS = {
     "dict-value": "{%% set d = {'f': c.%(m)s} %%}{{ d.f(%(a)s) }}",
     "call-block": "{%% macro w() %%}{{ caller() }}{%% endmacro %%}{%% call w() %%}{{ c.%(m)s(%(a)s) }}{%% endcall %%}",
     "do-statement": "{%% do c.%(m)s(%(a)s) %%}",
+    # the hand-out itself, without calling: a defined value makes the template touch an undefined name
+    "handout-defined": "{%% if c.%(m)s is defined %%}{{ missing_zz.handed_out() }}{%% endif %%}{%% set unused = [%(a)s] %%}",
+    "handout-defined-item": "{%% if c['%(m)s'] is defined %%}{{ missing_zz.handed_out() }}{%% endif %%}{%% set unused = [%(a)s] %%}",
     # the container sits three levels down: object -> dict -> object -> container (and list -> dict -> container)
     "deep-dot": "{{ deep.data.inner.c.%(m)s(%(a)s) }}",
     "deep-subscript": "{{ deep['data']['inner']['c']['%(m)s'](%(a)s) }}",
@@ -261,7 +265,7 @@ PATHS = {
     "host-ref-macro": "{%% macro call(g) %%}{{ g(%(a)s) }}{%% endmacro %%}{{ call(hmd['f']) }}",
 }
 # the async immutable sandbox runs every path in the thorough tier and this core set in the quick tier
-ASYNC_QUICK_PATHS = ("dot", "subscript", "attr-filter", "map-attribute", "set-alias", "deep-dot", "deep-map-dotted", "host-ref",
+ASYNC_QUICK_PATHS = ("handout-defined", "dot", "subscript", "attr-filter", "map-attribute", "set-alias", "deep-dot", "deep-map-dotted", "host-ref",
                      "host-ref-dict", "format-attr", "format-deep")
 HOST_REF_PATHS = ("host-ref", "host-ref-dict", "host-ref-list", "host-ref-alias", "host-ref-loop", "host-ref-macro")
 FORMAT_PATHS = {
@@ -287,7 +291,14 @@ def render_case(envs, mode, src, data, entry="render", place="context"):
     is_async = bool(getattr(env, "is_async", False))
     try:
         if place == "template-globals":
-            t = env.from_string(src, globals=data)
+            # the template keeps a live view of the dict it was given: one dict per mode, refilled per case
+            holder = envs["cache"].setdefault("holder:" + mode, {})
+            key = "tg:" + src
+            t = envs["cache"][mode].get(key)
+            if t is None:
+                t = envs["cache"][mode][key] = env.from_string(src, globals=holder)
+            holder.clear()
+            holder.update(data)
             args = {}
         else:
             t = envs["cache"][mode].get(src)
@@ -389,6 +400,19 @@ def judge_method_case(ctx, envs, case, model_safe, exists=True):
             reject_once(ctx, case, f"{NAME[T]}.{m} reached through '{path}' in the {mode} immutable sandbox modified the "
                              f"context data ({outcome}; history {order}, step {stepno})", f"C19:method:{NAME[T]}.{m}")
             return False
+        if path.startswith("handout-defined"):
+            # "attempts yield an undefined value or raise SecurityError": a mutating method must not come out defined
+            handed_out = outcome == "UndefinedError"
+            if handed_out and case.get("mutates"):
+                case["step"] = stepno
+                reject_once(ctx, case, f"{NAME[T]}.{m} is handed out by the {mode} immutable sandbox as a defined value "
+                                       f"(history {order}, step {stepno})", f"C19:handout:{NAME[T]}.{m}")
+                return False
+            if model_safe is not None and exists and handed_out != bool(model_safe) and T != "TDict":
+                case["step"] = stepno
+                ctx.model_mismatch("K-render immutable_handout (is defined)", case, "value" if model_safe else "undefined", outcome, None)
+                return False
+            continue
         if not (path in FORMAT_PATHS or model_safe is None) and (not model_safe) != (outcome == "SecurityError") and exists:
             case["step"] = stepno
             ctx.model_mismatch("K-render immutable_handout", case, "safe" if model_safe else "blocked", outcome, None)
@@ -437,6 +461,33 @@ class GetItemOnly:
 
     def __getitem__(self, i):
         return self._items[i]
+
+
+BASIC_EXPR = re.compile(r"^[\w.]+\|\w+(\(\))?$")
+EXTRA_NAMES = set()
+
+# statement-level templates (not expressible as one expression): namespaces built from context containers and then
+# assigned to, rebinding of names that alias containers, loops that assign, blocks
+STATEMENT_TEMPLATES = [
+    "{% set ns = namespace(d) %}{% set ns.z = 1 %}{{ ns.z }}",
+    "{% set ns = namespace(d, extra=1) %}{{ ns.extra }}",
+    "{% set ns = namespace(nest.data.by) %}{% set ns.k = 0 %}{% set ns.new = l %}",
+    "{% set ns = namespace(**d) %}{% set ns.a = 5 %}{{ ns.a }}",
+    "{% set ns = namespace(dm) %}{% set ns.x = 1 %}",
+    "{% set ns = namespace(v=l) %}{% set ns.v = ns.v + [9] %}{{ ns.v|length }}",
+    "{% set x = l %}{% set x = x + [1] %}{{ x|length }}",
+    "{% for x in ll %}{% set x = 0 %}{% endfor %}{% for k, v in d.items() %}{% set v = 0 %}{% endfor %}",
+    "{% with l = l, d = d %}{% set l = [] %}{% set d = {} %}{% endwith %}",
+    "{% set d2 = dict(d) %}{% do d2.update(z=1) %}{{ d2|length }}",
+    "{% set l2 = l|list %}{% do l2.append(1) %}{{ l2|length }}",
+    "{% set l2 = l|list %}{{ l2|join(',') }}{{ (l|list)|join }}{{ l|list|join('-') }}",
+    "{% set c = cycler(*l) %}{{ c.next() }}{% do c.reset() %}{% set j = joiner(', ') %}{{ j() }}{{ j() }}",
+    "{% macro m(a=l, b=d) %}{% set a = [] %}{{ a }}{{ b|length }}{% endmacro %}{{ m() }}{{ m(ll[0]) }}",
+    "{% for x in l|sort %}{{ loop.index }}{% endfor %}{% for x in l|reverse %}{{ x }}{% endfor %}{{ l }}",
+    "{% filter upper %}{{ l|join(',') }}{{ d|dictsort }}{% endfilter %}",
+    "{% set blk %}{{ ll|map('join', ',')|join(';') }}{% endset %}{{ blk }}",
+    "{% for x in ll recursive %}{{ x|join(',') if x is iterable and x is not string else x }}{{ loop(x) if x is iterable and x is not string and x|length > 1 else '' }}{% endfor %}",
+]
 
 
 def filter_templates(ctx, filters):
@@ -500,7 +551,8 @@ def filter_templates(ctx, filters):
         "ld|map(attribute='k')|map('sum', start=l)", "ll|map('attr', 'append')",
     ]
     for e in extra:
-        yield e.split("|")[1].split("(")[0], e
+        EXTRA_NAMES.add(e.split("|")[1].split("(")[0] if "|" in e else "expr:" + e.split("(")[0].split(".")[0])
+        yield (e.split("|")[1].split("(")[0] if "|" in e else "expr:" + e.split("(")[0].split(".")[0]), e
 
 
 def judge_filter_case(ctx, envs, case):
@@ -528,11 +580,22 @@ def run(ctx):
         "an attribute handed out as the SecurityError-undefined cannot be used to reach the bound method (Undefined has no public attributes)",
         "filters_do_not_mutate_args is as strong as the alias analysis of gen/sbx_filters_scan.py (values passed through calls are treated as fresh); the deep-compare run is the behavioural check",
     ]
+    import time as _time
+    _t0 = _time.time()
+    timing = ctx.extra.setdefault("timing_s", {})
+
+    def lap(name):
+        nonlocal _t0
+        timing[name] = round(_time.time() - _t0, 1)
+        _t0 = _time.time()
     ctx.proof("C19")
+    lap("proof")
     # T5: the current source of modifies_known_mutable, is_internal_attribute and both
     # is_safe_attribute methods, interpreted in Coq, equals the model functions for every argument
-    sbx_src_tie.source_equations(ctx, ("mkm", "internal", "safe", "imm", "access", "immcall"))
+    sbx_src_tie.source_equations(ctx, ("mkm", "imm", "immcall"))
+    lap("source_equations")
     facts, flagged = regenerate(ctx)
+    lap("regenerated_tables")
     from jinja2 import sandbox as sb
     envs = make_envs()
 
@@ -585,6 +648,7 @@ def run(ctx):
                 else:
                     ctx.validated()
 
+    lap("policy_and_spec")
     # ---- K-render: every public name (+ dunder mutators) along every path, sync and async
     per_method = ctx.size(2, 6)
     for T in public:
@@ -595,13 +659,15 @@ def run(ctx):
             bits = model.get((T, m))
             for idx, ((ai, variant), path, mode) in enumerate(itertools.product(trials, list(PATHS) + list(FORMAT_PATHS), ("sync", "async"))):
                 case = {"kind": "method", "T": T, "m": m, "args": ai, "variant": variant, "path": path, "mode": mode,
-                        "order": "plain-first" if idx % 2 == 0 else "immutable-first",
+                        "order": "plain-first" if idx % 2 == 0 else "immutable-first", "mutates": bool(bits and bits["spec"]),
                         # sampled axes: entry point, where the data lives, environment configuration
                         "entry": ENTRIES[(idx // 2) % len(ENTRIES)], "place": PLACES[(idx // 3) % len(PLACES)],
                         "config": ("", "", "", "-overlay", "-noopt")[(idx // 5) % 5]}
                 nontriv = bool(bits and bits["spec"]) or (T, m) in observed and observed[(T, m)][0]
                 if ctx.tier != "thorough" and mode == "async" and path not in ASYNC_QUICK_PATHS:
                     continue
+                if ctx.tier != "thorough" and (ai, variant) != trials[0] and path not in ASYNC_QUICK_PATHS:
+                    continue      # quick tier: the second argument tuple only along the core paths
                 if path in HOST_REF_PATHS and (m in DUNDER_MUTATORS or not callable(getattr(PY_OF[T], m, None))):
                     continue      # host-supplied references: the public methods of the four types
                 # a host-supplied bound method never passes through attribute access: the immutable call gate
@@ -619,6 +685,7 @@ def run(ctx):
                 if ok:
                     ctx.validated()
 
+    lap("method_stream")
     # ---- K-filters
     from jinja2.filters import FILTERS
     seen = set()
@@ -627,10 +694,18 @@ def run(ctx):
         if expr not in seen:
             seen.add(expr)
             exprs.append((name, expr))
-    for name, expr in exprs:
+    for eidx, (name, expr) in enumerate(exprs):
         for form, mode in itertools.product(("print", "list"), ("sync", "async", "sync-ae", "async-ae")):
-            if mode.endswith("-ae") and form == "list" and ctx.tier != "thorough":
-                continue
+            if ctx.tier != "thorough":
+                # quick tier: printed form, sync and async for every expression; the |list form and the autoescape
+                # environments for every third expression (all combinations in the thorough tier)
+                if mode.endswith("-ae") and form == "list":
+                    continue
+                basic = bool(BASIC_EXPR.match(expr)) or name in EXTRA_NAMES
+                if form == "list" and eidx % 4 != 0:
+                    continue
+                if mode.endswith("-ae") and not basic and eidx % 4 != 0:
+                    continue      # autoescape: always for `value|filter` and the hand-written expressions
             case = {"kind": "filter", "filter": name, "expr": expr, "form": form, "mode": mode}
             ok = judge_filter_case(ctx, envs, case)
             good = case["outcome"] == "ok"
@@ -639,6 +714,20 @@ def run(ctx):
             ctx.count("filter_" + mode + ("_ok" if good else "_error"))
             if ok:
                 ctx.validated()
+    # ---- statement-level templates, every immutable environment incl. autoescape
+    for src, mode in itertools.product(STATEMENT_TEMPLATES, ("sync", "async", "sync-ae", "async-ae")):
+        case = {"kind": "statements", "template": src, "mode": mode}
+        data = with_generators(filter_values())
+        before = canon(data)
+        outcome = render_case(envs, mode, src, data)
+        case["outcome"] = outcome
+        ctx.case(sample=case if "namespace(d)" in src and mode == "sync" else None, key=("stmt", src, mode))
+        ctx.count("statement_templates")
+        if canon(data) != before:
+            reject_once(ctx, case, f"the template {src!r} ({mode} immutable sandbox) modified the context data", f"C19:statements:{src[:40]}")
+        else:
+            ctx.validated()
+    lap("filter_stream")
     ctx.extra["filters_exercised"] = len({n for n, _ in exprs})
     ctx.extra["filter_expressions"] = len(exprs)
 
@@ -652,6 +741,12 @@ def replay(ctx, data):
     envs = make_envs()
     if case.get("kind") == "method":
         judge_method_case(ctx, envs, {k: v for k, v in case.items() if k not in ("outcome", "template", "step")}, None)
+    elif case.get("kind") == "statements":
+        data = with_generators(filter_values())
+        before = canon(data)
+        render_case(envs, case["mode"], case["template"], data)
+        if canon(data) != before:
+            ctx.reject(case, "the template modified the context data", None)
     elif case.get("kind") == "filter":
         judge_filter_case(ctx, envs, dict(case))
     elif case.get("kind") == "policy":
